@@ -1524,7 +1524,8 @@ def fam_term(tier, seed):
                     out.append(g)
     # long literals: a comparison done in machine words, or on a prefix only, shows at one position of one length
     base = "aBcdEfgHijkLmnopQrstuvWxyz0123456789_"
-    for ln in ((4, 8, 9, 16, 17, 33) if tier == "quick" else (4, 5, 7, 8, 9, 15, 16, 17, 24, 31, 32, 33, 37)):
+    base = base + base.swapcase() + base + base.lower()
+    for ln in ((4, 8, 9, 16, 17, 33, 65, 70, 130) if tier == "quick" else (4, 5, 7, 8, 9, 15, 16, 17, 24, 31, 32, 33, 37, 63, 64, 65, 70, 127, 128, 130)):
         l = base[:ln]
         for ci in (False, True):
             g = Grammar("term_%04d" % len(out), [Rule("S", Seq(Lit(l, ci=ci), Opt(Call("char", "c"))), export=True, position=True, no_skip_ws=True)],
@@ -1532,8 +1533,12 @@ def fam_term(tier, seed):
             g.alpha = ["a", "B"]
             g.extra = [list(l), list(l.swapcase()), list(l[:-1]), list(l + "a"), list(l.lower()), list(l.upper())]
             for k_ in range(ln):
-                for repl in (chr(ord(l[k_]) ^ 0x20), chr(ord(l[k_]) + 1), "é"):
+                for repl in (chr(ord(l[k_]) ^ 0x20), chr(ord(l[k_]) + 1), "é") + (("\u20ac", "\U0001F600") if k_ % 3 == ln % 3 or k_ >= ln - 4 else ()):
                     g.extra.append(list(l[:k_] + repl + l[k_ + 1:]))
+            if ln > 40:
+                # the first 64 bytes right, the rest other characters of other widths
+                for tail in ("\u20ac" * 3, "a\u20ac\u20ac", "\u00e9" * (ln - 64), "\U0001F600\u20ac", l[64:][::-1]):
+                    g.extra.append(list(l[:64] + tail))
             if well_formed(g):
                 out.append(g)
     ranges = [("a", "z"), ("A", "Z"), ("0", "9"), ("@", "["), ("`", "{"), ("\x00", "\x1f"), ("~", "\x80"), ("z", "é"),
@@ -1840,6 +1845,15 @@ def fam_layout(tier, seed):
                 h.maxlen = min(h.maxlen, 3)
                 h.extra = h.extra[:6]
             out.append(h)
+    # CR LF line endings everywhere, one of them inside a literal and one inside a range-free @char rule's neighbourhood
+    g = Grammar("lay_%04d" % len(out), [Rule("S", Seq(Lit("a\r\nb"), Opt(Call("T", "t")), Opt(Call("C", "c"))), export=True, no_skip_ws=True),
+                                        Rule("T", Choice(Lit("\r\n"), Lit("\n")), string=True, no_skip_ws=True),
+                                        CharRule("C", [("lit", "\r"), ("lit", "x")])], root="S", maxlen=2,
+                meta={"shape": "crlf_text",
+                      "text": "@export\r\n@no_skip_ws\r\nS = 'a\r\nb' [t:T] [c:C];\r\n# comment\r\n@string\r\n@no_skip_ws\r\nT = \"\r\n\" |\r\n '\\n';\r\n@char\r\nC = '\\r' | 'x';\r\n"})
+    g.alpha = ["a", "b", "\r", "\n"]
+    g.extra = [list("a\r\nb"), list("a\r\nb\r\n"), list("a\r\nb\n"), list("a \nb"), list("a\r\nb\r")]
+    out.append(g)
     return out
 
 
